@@ -4,6 +4,7 @@
 * ``step_resample``       - exact mean / integral of a step function over output intervals
 * ``filter_valid``        - validity predicates for a filtered mesh
 * ``greedy_filter``       - anchor-free reference of "keep the preferred point" filtering
+* ``anchored_filter``     - the same walk with anchors (stack formulation of the documented conflict rule)
 * ``avg_within_tol``      - literal reading of the documented iterative outlier removal
 """
 import math
@@ -127,6 +128,39 @@ def greedy_filter(candidates, minimum, preference):
     for p in pts:
         if not kept or abs(p - kept[-1]) >= minimum:
             kept.append(p)
+    return sorted(kept)
+
+
+class AnchorsTooClose(Exception):
+    pass
+
+
+def anchored_filter(candidates, minimum, anchors, preference, info=None):
+    """Documented filtering rule as one pass with a stack: walk from the preferred end; a point further than the
+    minimum from the last kept point is kept; otherwise the two conflict and the anchor wins (the earlier point
+    gives way to an anchor, possibly several earlier points in turn), a non-anchor newcomer is dropped, and two
+    anchors in conflict are a loud failure.  ``info['borderline']`` is set when some distance is within 1e-9 of
+    the minimum (the float outcome is then not trusted)."""
+    anchors = set(anchors)
+    pts = sorted(set(candidates), reverse=(preference == "top"))
+    kept = []
+    for p in pts:
+        while True:
+            if not kept:
+                kept.append(p)
+                break
+            d = abs(p - kept[-1])
+            if info is not None and abs(d - minimum) < 1e-9:
+                info["borderline"] = True
+            if d >= minimum:
+                kept.append(p)
+                break
+            if p in anchors and kept[-1] in anchors:
+                raise AnchorsTooClose((kept[-1], p))
+            if p in anchors:
+                kept.pop()
+                continue
+            break
     return sorted(kept)
 
 
